@@ -475,6 +475,7 @@ EGLPNUM_TYPENAME_QSLIB_INTERFACE int EGLPNUM_TYPENAME_QSopt_pivotin_col (
 {
 	int basismod = 0;
 	int rval = 0;
+	int *mlist = 0;
 
 	rval = check_qsdata_pointer (p);
 	CHECKRVALG (rval, CLEANUP);
@@ -496,7 +497,17 @@ EGLPNUM_TYPENAME_QSLIB_INTERFACE int EGLPNUM_TYPENAME_QSopt_pivotin_col (
 		}
 	}
 
-	rval = EGLPNUM_TYPENAME_ILLsimplex_pivotin (p->lp, p->pricing, ccnt, clist,
+	/* like everywhere else in the interface clist holds structural column
+	 * indices; the simplex code works on matrix columns (logicals included) */
+	if (ccnt > 0)
+	{
+		int i;
+		ILL_SAFE_MALLOC (mlist, ccnt, int);
+		for (i = 0; i < ccnt; i++)
+			mlist[i] = p->qslp->structmap[clist[i]];
+	}
+
+	rval = EGLPNUM_TYPENAME_ILLsimplex_pivotin (p->lp, p->pricing, ccnt, mlist,
 														 SIMPLEX_PIVOTINCOL, &basismod);
 	CHECKRVALG (rval, CLEANUP);
 
@@ -505,6 +516,7 @@ EGLPNUM_TYPENAME_QSLIB_INTERFACE int EGLPNUM_TYPENAME_QSopt_pivotin_col (
 
 CLEANUP:
 
+	ILL_IFFREE(mlist);
 	EG_RETURN (rval);
 }
 
